@@ -359,12 +359,23 @@ def rule_unq(S):
     # is read and whether the unlinked entry is reset no longer matter
     serialised = facts.__dict__.get('_c13_serialised', False)
 
+    def origin(v, depth=0):
+        """the looked-up result a local pointer was copied from (`T* const t = ret.first;`), else the variable itself"""
+        while v is not None and v not in get_out and depth < 4:
+            ini0 = R.var_decl_init(ds, v)
+            nv = root_var(ds, ini0) if ini0 is not None else None
+            if nv is None or nv == v or any(x['k'] in CALL_KINDS for x in ds.walk(ini0)):
+                break
+            v = nv
+            depth += 1
+        return v
+
     def step(ctx, n, st):
         fs = R.track_assign(ds, n, st, facts)
-        if is_call(n, cq='yakushima::tree_instance::load_root_ptr') and root_var(ds, call_recv(ds, n)) in get_out:
+        if is_call(n, cq='yakushima::tree_instance::load_root_ptr') and origin(root_var(ds, call_recv(ds, n))) in get_out:
             onok0 = any((R.facts_get(fs, v) or '') == 'in:' + OK for v in rm_vars) or R.facts_get(fs, '#rm') == 'ok'
             return R.facts_set(fs, '#rootload', 'after' if onok0 else 'before')
-        if is_call(n, cq='yakushima::tree_instance::store_root_ptr') and root_var(ds, call_recv(ds, n)) in get_out:
+        if is_call(n, cq='yakushima::tree_instance::store_root_ptr') and origin(root_var(ds, call_recv(ds, n))) in get_out:
             a0 = call_args(ds, n)
             if a0 and R.const_of(ds, a0[0]) == 'null':
                 return R.facts_set(fs, '#cleared', 'Y')
@@ -384,7 +395,7 @@ def rule_unq(S):
             if ini is not None:
                 for x in ds.walk(ini):
                     if is_call(x, cq='yakushima::tree_instance::load_root_ptr'):
-                        src = root_var(ds, call_recv(ds, x))
+                        src = origin(root_var(ds, call_recv(ds, x)))
             onok = any((R.facts_get(fs, v) or '') == 'in:' + OK for v in rm_vars) or R.facts_get(fs, '#rm') == 'ok'
             e = destroyed.setdefault(short_loc(n), {'ok': True, 'loc': short_loc(n), 'path': None, 'why': ''})
             if src not in get_out:
